@@ -1,3 +1,4 @@
+import threading
 import argparse, fcntl, glob, hashlib, json, os, random, re, shutil, subprocess, sys, time
 from collections import Counter
 from common import *
@@ -156,6 +157,13 @@ EXTRA_BRIDGE = {'C01': ['B_Ready', 'B_CmdClaim', 'B_CmdGrid'], 'C03': ['B_Read']
                 'C19': ['B_Ready'], 'C20': ['B_Replay', 'B_Compact', 'B_Cmd', 'B_CmdApply']}
 
 
+def bridge_key(bname):
+    h = hashlib.sha256(subprocess.run(['coqc', '--version'], capture_output=True).stdout)
+    for f in sorted(glob.glob(os.path.join(COQ, 'theories', '*.v')) + glob.glob(os.path.join(COQ, 'gen', '*.v')) + glob.glob(os.path.join(COQ, 'bridge', '*.v'))):
+        h.update(f.encode() + b'\0' + open(f, 'rb').read() + b'\0')
+    return bname + ':' + h.hexdigest()
+
+
 def compile_bridge(ctx, bname):
     b = os.path.join(COQ, 'bridge', bname + '.v')
     if not os.path.exists(b):
@@ -167,10 +175,7 @@ def compile_bridge(ctx, bname):
         return
     # Same inputs, same verdict: a successful compile is remembered under the hash of EVERY .v source it can depend on
     # (theories, the files regenerated from /repo on this run, the bridge) and the coqc version; a failure never is.
-    h = hashlib.sha256(subprocess.run(['coqc', '--version'], capture_output=True).stdout)
-    for f in sorted(glob.glob(os.path.join(COQ, 'theories', '*.v')) + glob.glob(os.path.join(COQ, 'gen', '*.v')) + glob.glob(os.path.join(COQ, 'bridge', '*.v'))):
-        h.update(f.encode() + b'\0' + open(f, 'rb').read() + b'\0')
-    key = bname + ':' + h.hexdigest()
+    key = bridge_key(bname)
     cache_file = os.path.join(BUILD, 'bridge_cache.json')
     try:
         cache = json.load(open(cache_file))
@@ -202,15 +207,17 @@ def compile_bridge(ctx, bname):
         if out.count('Closed under the global context') != len(re.findall(r'^Print Assumptions', open(b).read(), re.M)):
             ctx.obligations.append((bname + ': Print Assumptions', False, 'not closed: ' + out[-300:]))
         else:
-            try:
-                cache = json.load(open(cache_file))
-            except Exception:
-                cache = {}
-            cache = {k: v for k, v in cache.items() if not k.startswith(bname + ':')}
-            cache[key] = 'ok'
-            tmp = cache_file + '.%d' % os.getpid()
-            json.dump(cache, open(tmp, 'w'))
-            os.replace(tmp, cache_file)
+            with open(cache_file + '.lock', 'w') as lk:          # several checks / threads may finish at once
+                fcntl.flock(lk, fcntl.LOCK_EX)
+                try:
+                    cache = json.load(open(cache_file))
+                except Exception:
+                    cache = {}
+                cache = {k: v for k, v in cache.items() if not k.startswith(bname + ':')}
+                cache[key] = 'ok'
+                tmp = cache_file + '.%d.%d' % (os.getpid(), threading.get_ident())
+                json.dump(cache, open(tmp, 'w'))
+                os.replace(tmp, cache_file)
         for n in bnames:
             ctx.obligations.append((n, True, ''))
 
@@ -435,7 +442,21 @@ def prefill_bridge_cache():
         compile_bridge(c, n)
         return n, all(o[1] for o in c.obligations)
     for n in first:
-        print('bridge', *one(n), flush=True)
+        # these are libraries of the later bridge files and have just been built by make from the same sources:
+        # a .vo that is newer than its source is the verdict
+        v, vo = os.path.join(COQ, 'bridge', n + '.v'), os.path.join(COQ, 'bridge', n + '.vo')
+        if ctx0.coq_build_rc == 0 and os.path.exists(vo) and os.path.getmtime(vo) >= os.path.getmtime(v) and not ctx0.gen_error:
+            cache_file = os.path.join(BUILD, 'bridge_cache.json')
+            try:
+                cache = json.load(open(cache_file))
+            except Exception:
+                cache = {}
+            cache = {k: v for k, v in cache.items() if not k.startswith(n + ':')}
+            cache[bridge_key(n)] = 'ok'
+            json.dump(cache, open(cache_file, 'w'))
+            print('bridge', n, 'built by make', flush=True)
+        else:
+            print('bridge', *one(n), flush=True)
     with cf.ThreadPoolExecutor(max_workers=8) as ex:
         for n, ok in ex.map(one, [n for n in names if n not in first]):
             print('bridge', n, ok, flush=True)
